@@ -67,7 +67,9 @@ Inductive eaction : Type := ASkip | ACreate | AUpdate | ADelete.
 
 Record task : Type := mk_task { t_path : path; t_action : eaction; t_src : option sentry }.
 
-Definition plan_entry (c : cfg) (dst : fs) (e : sentry) : task :=
+(* [ds p] = (st_size, mtime) that stat() reports for the DIRECTORY at p: the planner compares them with a
+   source FILE of the same name exactly as if the directory were a file *)
+Definition plan_entry (c : cfg) (ds : path -> N * Z) (dst : fs) (e : sentry) : task :=
   let a :=
     if se_is_dir e then match dst (se_path e) with Some _ => ASkip | None => ACreate end
     else match dst (se_path e) with
@@ -75,7 +77,9 @@ Definition plan_entry (c : cfg) (dst : fs) (e : sentry) : task :=
          | Some (File dc dsz dmt) =>
              if c_checksum c then (if N.eqb dc (se_content e) then ASkip else AUpdate)   (* both checksums computed and compared *)
              else if needs_update c e dsz dmt then AUpdate else ASkip
-         | Some Dir => AUpdate                                   (* stat succeeds on the directory; the copy then fails *)
+         | Some Dir =>                                          (* stat succeeds on the directory; a copy would then fail *)
+             if c_checksum c then AUpdate
+             else if needs_update c e (fst (ds (se_path e))) (snd (ds (se_path e))) then AUpdate else ASkip
          end in
   mk_task (se_path e) a (Some e).
 
@@ -119,8 +123,8 @@ Definition update_file (c : cfg) (now : Z) (m : fs) (e : sentry) : fs + err :=
   | Some (File dc dsz dmt) =>
       if N.ltb dsz (c_big c) then copy_file m e
       else (* sparse copy, change-ratio fallback (fs::copy) and temp-file block rebuild + rename:
-              all three leave the source's bytes and the time of the run as mtime *)
-        inl (fs_set m (se_path e) (Some (File (se_content e) (se_size e) now)))
+              all three write the source's bytes and then restore the source's mtime *)
+        inl (fs_set m (se_path e) (Some (File (se_content e) (se_size e) (se_mtime e))))
   end.
 
 (* Transferrer::delete -> LocalTransport::remove; is_dir is evaluated when the task runs *)
@@ -137,7 +141,10 @@ Definition exec_task (c : cfg) (now : Z) (m : fs) (t : task) : fs + err :=
        | ASkip, _ => inl m
        | ACreate, Some e => if se_is_dir e then mkdir_all m (se_path e) else copy_file m e
        | AUpdate, Some e => if se_is_dir e then inl m else update_file c now m e
-       | ADelete, _ => remove m (t_path t)
+       | ADelete, _ => match m (t_path t) with
+                       | None => inl m          (* already gone with its parent directory: a completed deletion *)
+                       | Some _ => remove m (t_path t)
+                       end
        | _, None => inl m
        end.
 
@@ -161,10 +168,10 @@ Fixpoint exec_all (c : cfg) (now : Z) (m : fs) (ts : list task)
 
 (* SyncEngine::sync.  [refuse d n t] is the mass-deletion test (Threshold.refuse false);
    dst_listing is the destination scan (parent-first).  *)
-Definition run (refuse : Z -> Z -> Z -> bool) (c : cfg) (now : Z) (U : list path)
+Definition run (refuse : Z -> Z -> Z -> bool) (ds : path -> N * Z) (c : cfg) (now : Z) (U : list path)
            (src : list sentry) (dst : fs) : report :=
   let dst_listing := filter (fun p => match dst p with Some _ => true | None => false end) U in
-  let tasks := map (plan_entry c dst) src in
+  let tasks := map (plan_entry c ds dst) src in
   let dels := if c_delete c then plan_deletions src dst_listing else [] in
   if c_delete c && negb (c_force_delete c) && negb (match dels with [] => true | _ => false end)
      && refuse (Z.of_nat (length dels)) (Z.of_nat (length dst_listing)) (c_threshold c)
@@ -175,4 +182,4 @@ Definition run (refuse : Z -> Z -> Z -> bool) (c : cfg) (now : Z) (U : list path
 Definition exit_status (c : cfg) (r : report) : Z :=
   if r_refused r then 1%Z
   else if negb (N.eqb (c_max_errors c) 0) && N.leb (c_max_errors c) (N.of_nat (length (r_errors r))) then 1%Z
-  else 0%Z.
+  else match r_errors r with [] => 0%Z | _ :: _ => 1%Z end.      (* main.rs: errors (or verification failures) => exit 1 *)
